@@ -42,7 +42,7 @@ Proof. exact torn_tail. Qed.
    (only when the frame does not fit), then either one whole frame that ends at or before the
    boundary, or a first frame (never empty), zero padding of at most HEADER_MAX_SIZE bytes ending
    exactly at the boundary, and a second frame (never empty) starting on the boundary.  A failing
-   append adds at most the padding.  The writer never panics (assert!, slice index) and the
+   append adds at most the padding, and fails only for an empty batch or at one of the two size checks.  The writer never panics (assert!, slice index) and the
    _append/append_split recursion never exceeds depth two. *)
 Theorem C12_append_layout : forall bits crc, HEADER_MAX_SIZE < 2 ^ bits ->
   forall rollover st buf r st',
@@ -52,10 +52,22 @@ Theorem C12_append_layout : forall bits crc, HEADER_MAX_SIZE < 2 ^ bits ->
   | WOk => buf <> [] /\ len buf < TABLE_FULL_SIZE /\
            exists k c, pad_at bits (w_bw st) k /\ main_at bits crc (w_bw st + k) buf c /\
                        w_file st' = w_file st ++ zeros k ++ c
-  | WErr e => exists k, pad_at bits (w_bw st) k /\ w_file st' = w_file st ++ zeros k
+  | WErr e => exists k, pad_at bits (w_bw st) k /\ w_file st' = w_file st ++ zeros k /\
+              (buf = [] \/ TABLE_FULL_SIZE <= w_bw st + k + len (frame crc HEADER_WHOLE buf) \/
+               rollover < w_bw st + k + len (frame crc HEADER_WHOLE buf))
   | WPanic | WFuel => False
   end.
 Proof. exact append_spec. Qed.
+
+(* No spurious failure: a non-empty batch is appended whenever it fits below TABLE_FULL_SIZE and
+   rollover_size with room for the padding and the header. *)
+Theorem C12_append_succeeds_when_room : forall bits crc, HEADER_MAX_SIZE < 2 ^ bits ->
+  forall rollover st buf r st',
+  wf_w st -> buf <> [] ->
+  w_bw st + 2 * HEADER_MAX_SIZE + len buf < TABLE_FULL_SIZE ->
+  w_bw st + 2 * HEADER_MAX_SIZE + len buf <= rollover ->
+  append bits crc rollover st buf = (r, st') -> r = WOk.
+Proof. exact append_ok_when_room. Qed.
 
 (* A WriteBatch built by put/del holds the encodings of the entries it accepted, in order, and
    (timestamps being u64) the entries it accepted are within the limits the theorems above ask for. *)
